@@ -25,6 +25,7 @@ REQUIRED_BUCKETS = ['section:none-marker', 'section:scoped', 'section:provider',
                     'param:binding-shown', 'param:caller-supplied-omitted', 'param:caller-supplied-once-gin-once', 'param:denylisted-default-omitted',
                     'param:nonrepresentable-omitted', 'param:nonrepresentable-default-omitted', 'replay:done', 'history:rebind', 'history:5+calls',
                     'shape:method', 'shape:init', 'shape:fn', 'override:keyword-on-reference', 'never-called-configurable-bound', 'history:failed-call-on-unbound-macro', 'history:rebind-equal-but-different', 'override:gin.REQUIRED-marker', 'history:failed-call-after-successful-call']
+REQUIRED_BUCKETS = REQUIRED_BUCKETS + ['history:consumer-mutated-supplied-container', 'history:macro-redefined-after-use']
 ORACLE_COUNTERS = ['oracle_evals', 'texts_compared', 'replays']
 _S = {}
 HDR = re.compile(r'^# Parameters for (.+):$')
@@ -168,6 +169,10 @@ def iter_cases(ctx, rng, n):
           over[x] = rng.choice(['kw', 'kw', 'pos', 'req-kw', 'req-pos'])
       history.append(['call', ci, rng.choice([[], [], ['a'], ['a', 'b'], ['b'], ['c'], ['a', 'c'], ['a', 'b', 'c'], ['a', 'b', 'a', 'b']]), over,
                       rng.random() < 0.15])
+    if rng.random() < 0.25:
+      # a macro is given another value between calls, often after the last one: the record keeps what the calls were given
+      at = len(history) if rng.random() < 0.6 else rng.randrange(len(history) + 1)
+      history.insert(at, ['remacro', rng.choice(['m0', 'mm/m1']), rng.choice([['lit', 'redefined'], ['lit', [9, [8]]], ['ref', 'prov0', [], True]]), rng.random() < 0.5])
     yield {'specs': specs, 'binds': binds, 'graph': graph, 'macros': macros, 'history': history}
 
 
@@ -181,6 +186,7 @@ class OpModel:
     self.consts_used = set()
     self.bind = {}       # (scope, selector) -> {param: tree}
     self.prov_calls = []
+    self.macros = dict(case['macros'])    # current definitions (a history may re-define them)
 
   def record(self, scope, selector, vals):
     self.op.setdefault(('/'.join(scope), selector), {}).update(vals)
@@ -190,8 +196,8 @@ class OpModel:
     if k == 'ref' and t[3]:
       self.call_provider(t[1], t[2] or ambient)
     elif k == 'macro':
-      self.macros_used[t[1]] = self.case['macros'][t[1]]
-      self.evaluate(self.case['macros'][t[1]], t[1].split('/'))
+      self.macros_used[t[1]] = self.macros[t[1]]
+      self.evaluate(self.macros[t[1]], t[1].split('/'))
     elif k == 'const':
       self.consts_used.add(t[1])
     elif k in ('list', 'tuple'):
@@ -250,6 +256,16 @@ def run_history(ctx, case, plist, objs, model, phase):
   import gin
   obs = []
   for h in case['history']:
+    if h[0] == 'remacro':
+      if phase == 'first':
+        ctx.bucket('history:macro-redefined-after-use' if h[1] in model.macros_used else 'history:macro-redefined')
+        if h[3]:
+          gin.parse_config('%s = %s\n' % (h[1], c04.tree_text(h[2])))
+        else:
+          gin.bind_parameter((h[1], 'gin.macro', 'value'), tree_value(h[2], objs))
+        model.macros[h[1]] = h[2]
+      obs.append(('remacro',))
+      continue
     if h[0] == 'rebind':
       _, ci, sc, prm, tree = h[:5]
       p = plist[ci]
@@ -320,6 +336,16 @@ def run_history(ctx, case, plist, objs, model, phase):
     provs = sorted((_S['by_pid'][r.pid], r.scope) for r in recs if r.pid in _S['by_pid'])
     received = cons[0].received if cons else None
     obs.append(('call', ci, tuple(scope), normalise(received), provs))
+    if phase == 'first' and received and bound_here:
+      # the consumer edits, in place, the containers Gin handed it: the record of what Gin supplied must not change with them
+      nm = 0
+      for x in bound_here:
+        # (a constant is delivered as the very object: editing it edits the constant, which is the user's business)
+        if x not in supplied and not has(bound_here[x], ('const',)) and not (has(bound_here[x], ('macro',)) and any(has(mt, ('const',)) for mt in case['macros'].values())):
+          got = received.get(x) if x in received else (received.get('**') or {}).get(x)
+          nm += c04.mutate(got)
+      if nm:
+        ctx.bucket('history:consumer-mutated-supplied-container')
     if then_fail and needed and phase == 'first' and needed[0] in K:
       # the same call again, but one parameter nobody provides is left out: TypeError; what the earlier calls recorded must survive
       K2 = {k: v for k, v in K.items() if k != needed[0]}
@@ -528,7 +554,7 @@ def run_case(ctx, case):
     return
 
   # ---- replay
-  rebinds = any(h[0] == 'rebind' for h in case['history'])
+  rebinds = any(h[0] in ('rebind', 'remacro') for h in case['history'])
   if all_repr and not rebinds:
     gin.clear_config()
     try:
